@@ -9,7 +9,9 @@ Definition sm_new := m_new string_assign_alloc.
 Definition sm_new_empty := m_new_empty.
 Definition sm_step := m_step string_assign_alloc string_concat_alloc string_resize_alloc
                              string_format_alloc string_rem_count string_rem_checks
-                             string_assign_self_safe string_concat_self_safe string_format_self_safe.
+                             string_assign_self_safe string_concat_self_safe string_format_self_safe
+                             string_resize_same_returns string_resize_shrinks string_resize_fill
+                             string_format_local_cap string_format_heap_when.
 Definition ss_step := spec_step.
 Definition sm_cstr := c_str.
 Definition s_murmur := murmur64.
